@@ -348,25 +348,31 @@ func runC07(c *Ctx) {
 			return
 		}
 		ok := true
+		// evidence edges: ttl known non-zero (ttl != 0, or ttl > 0) / ttl known not positive (ttl == 0, or !(ttl > 0);
+		// negative ttls never get here: they return false first, checked above)
+		nz := cutSet(edgesWhere(fn, tb, "eq(p[4],c[0])", nil, false), edgesWhere(fn, tb, "lt(c[0],p[4])", nil, true))
+		zEdges := []map[Edge]bool{edgesWhere(fn, tb, "eq(p[4],c[0])", nil, true), edgesWhere(fn, tb, "lt(c[0],p[4])", nil, false)}
+		isZ := cutSet(zEdges...)
 		for i, e := range phi.Edges {
 			pred := phi.Block().Preds[i]
 			if isConst(e, "zero") {
-				// must come across the ttl == 0 edge
-				isZeroTTL := edgesWhere(fn, tb, "eq(p[4],c[0])", nil, true)
-				hit := false
-				for ed := range isZeroTTL {
-					if ed.From == pred && ed.From.Succs[ed.Succ] == phi.Block() {
-						hit = true
+				// the zero expiration may be chosen only where ttl is known not to be positive
+				direct := false
+				for si, sblk := range pred.Succs {
+					if sblk == phi.Block() && isZ(Edge{pred, si}) {
+						direct = true
 					}
 				}
-				if !hit {
-					ok = false
-					L.Fail("R-C07-SETTTL", "Cache.SetWithTTL#expiration", "the zero expiration is chosen on an edge other than ttl == 0", lf["Expiration"][0].Pos())
+				if !direct {
+					term := pred.Instrs[len(pred.Instrs)-1]
+					if b, _ := reach(entryPos(fn), isInstr(term), nil, isZ); b != nil {
+						ok = false
+						L.Fail("R-C07-SETTTL", "Cache.SetWithTTL#expiration", "the zero expiration can be chosen although ttl may be positive", lf["Expiration"][0].Pos())
+					}
 				}
 			} else {
-				nz := edgesWhere(fn, tb, "eq(p[4],c[0])", nil, false)
 				call := e.(ssa.Instruction)
-				if b, _ := reach(entryPos(fn), isInstr(call), nil, cutSet(nz)); b != nil {
+				if b, _ := reach(entryPos(fn), isInstr(call), nil, nz); b != nil {
 					ok = false
 					L.Fail("R-C07-SETTTL", "Cache.SetWithTTL#expiration", "time.Now().Add(ttl) is computed without ttl != 0 having been established", call.Pos())
 				}
